@@ -24,6 +24,7 @@ P = {'id': 'C16',
               'bulk_reclaim_safe',
               'handed_back_safe',
               'handed_back_safe_after',
+              'process_safe_default_is_take_safe',
               'spec_invariants',
               'step_refines',
               'run_refines',
